@@ -86,7 +86,7 @@ func VerifC12Keys() {
 					r.SetInt64("b", int64(v))
 					return nil
 				}
-				switch vndChoice("kop", 5) {
+				switch vndChoice("kop", 6) {
 				case 0:
 					err := txn.InsertKey(key, set)
 					vndAssert((err != nil) == has[k], "InsertKey must fail if and only if the key exists")
@@ -123,6 +123,20 @@ func VerifC12Keys() {
 					})
 					vndAssert((err != nil) == !has[k], "QueryKey (re-key) must fail iff the key is absent")
 					if err == nil && !has[k2] {
+						finHas[k2], finVal[k2], finHasVal[k2] = true, val[k], hasVal[k]
+						finHas[k], finHasVal[k] = false, false
+					}
+				case 5: // re-key from inside the callback of an UpsertKey of an existing key
+					k2 := vndChoice("key2", A)
+					if !has[k] || k2 == k || i != M-1 || finHas != has || finVal != val || creates != [vMaxKeys]int{} {
+						break
+					}
+					err := txn.UpsertKey(key, func(r Row) error {
+						r.SetKey(vKeyName(k2))
+						return nil
+					})
+					vndAssert(err == nil, "UpsertKey (re-key) failed")
+					if !has[k2] {
 						finHas[k2], finVal[k2], finHasVal[k2] = true, val[k], hasVal[k]
 						finHas[k], finHasVal[k] = false, false
 					}
